@@ -562,6 +562,23 @@ theorem inv_delGlyph_core (P : Params V) (T : Tables) (hcov : Coverage T = true)
             exact hex ⟨m, hrd⟩
       · simp [hbi]
 
+/-- `del layer[name]` -/
+theorem inv_delGlyph (P : Params V) (T : Tables) (hcov : Coverage T = true) (w : World V) (name : String)
+    (hinv : Inv P T w) (hdom : Dom w) : Inv P T (doDelGlyph T w name).1 := by
+  unfold doDelGlyph
+  cases hg : AL.get? w.glyphs name with
+  | none => simpa [hg] using hinv
+  | some g =>
+    simp only
+    rw [switchAndPost_eq]
+    have e1 : (applyDeliv T ({ w with glyphs := mapAllComps w.glyphs (setWatch (watchesBase name) Watch.layer) } : World V)
+        (switchDs T w (watchesBase name) Watch.layer "layerGlyphWillBeDeletedNotificationCallback")).glyphs =
+        mapAllComps w.glyphs (setWatch (watchesBase name) Watch.layer) := (sameStruct_applyDeliv T _ _).glyphs
+    rw [e1, applyDeliv_with_glyphs]
+    exact inv_delGlyph_core P T hcov w
+      ({ w with glyphs := mapAllComps w.glyphs (setWatch (watchesBase name) Watch.layer) } : World V) _ name g
+      hinv hdom hg rfl rfl rfl rfl rfl rfl rfl rfl
+
 /-- `Layer.newGlyph` on an absent name -/
 theorem inv_newGlyph (P : Params V) (T : Tables) (hcov : Coverage T = true) (w : World V) (name : String)
     (hinv : Inv P T w) (hdom : Dom w) (hdom' : Dom (doNewGlyph T w name).1) : Inv P T (doNewGlyph T w name).1 := by
